@@ -6,12 +6,16 @@ R8 = ["AL", "CL", "DL", "BL", "AH", "CH", "DH", "BH"]
 R16 = ["AX", "CX", "DX", "BX", "SP", "BP", "SI", "DI"]
 R32 = ["EAX", "ECX", "EDX", "EBX", "ESP", "EBP", "ESI", "EDI"]
 SREG = ["ES", "CS", "SS", "DS", "FS", "GS"]
-SIZEKW = {0: "", 8: "BYTE ", 16: "WORD ", 32: "DWORD "}
+SIZEKWN = {0: "", 8: "BYTE", 16: "WORD", 32: "DWORD"}
+
+
+def sizekw(w):
+    return (SIZEKWN[w] + LAY["kwsp"]) if w else ""
 
 
 # layout (C12): gaps the grammar permits; canonical values below
 CANON = {"ind": "\t", "sep": "\t", "comma": ", ", "brk": "", "opsp": "", "trail": "", "cmt": "", "cmtsp": " ", "own": 0, "blank": 0,
-         "eol": "\n", "final": 1}
+         "eol": "\n", "final": 1, "kwsp": " "}
 LAY = dict(CANON)
 
 
@@ -95,7 +99,7 @@ def mem(o):
     if lab:
         s = (s + plus if s else "") + lab
     if "dx" in o:
-        return SIZEKW[o.get("w", 0)] + "[" + LAY["brk"] + (s + plus if s else "") + (o.get("dxtext") or expr(o["dx"])) + LAY["brk"] + "]"
+        return sizekw(o.get("w", 0)) + "[" + LAY["brk"] + (s + plus if s else "") + (o.get("dxtext") or expr(o["dx"])) + LAY["brk"] + "]"
     d = o.get("d", 0)
     hd = o.get("hd", 1 if (d != 0 or not s) else 0)
     if hd:
@@ -105,7 +109,7 @@ def mem(o):
             s += minus + num(-d, o.get("sty", "d")) if d != -2147483648 else plus + num(d, "h")
         else:
             s += plus + num(d, o.get("sty", "d"))
-    return SIZEKW[o.get("w", 0)] + "[" + LAY["brk"] + s + LAY["brk"] + "]"
+    return sizekw(o.get("w", 0)) + "[" + LAY["brk"] + s + LAY["brk"] + "]"
 
 
 def operand(o):
@@ -174,7 +178,8 @@ def stmt(s):
         a = t.get("add", 0)
         return LAY["ind"] + s["mn"] + LAY["sep"] + t["nm"] + (("+%d" % a) if a > 0 else ("%d" % a) if a < 0 else "")
     if k == "far":
-        return LAY["ind"] + s["mn"] + LAY["sep"] + "%s%d:%s" % ((s.get("kw", "") + " ") if s.get("kw") else "", s["seg"], num(s["off"], s.get("sty", "d")))
+        return LAY["ind"] + s["mn"] + LAY["sep"] + "%s%d:%s" % ((s.get("kw", "") + (LAY["kwsp"] or " ")) if s.get("kw") else "", s["seg"],
+                                                               s["offnm"] if s.get("offnm") else num(s["off"], s.get("sty", "d")))
     if k == "raw":
         return s["text"]
     raise ValueError("stmt " + repr(s))
@@ -265,4 +270,6 @@ def norm_stmt(s):
         s = {"k": "raw", "mn": s["mn"], "emits": bool(s.get("emits", True))}
     if k == "far":
         s.pop("kw", None)
+        s.setdefault("offnm", "")       # the offset may be a label name instead of a number
+        s.setdefault("off", 0)
     return s
